@@ -357,6 +357,7 @@ def prepare_kani_crate(uid, cfg):
                 dp = os.path.join(dst, rel, f)
                 if not os.path.exists(dp) or open(dp).read() != data:
                     open(dp, 'w').write(data)
+    shutil.copy(os.path.join(VERIF, 'kani', 'common', 'shim.rs'), os.path.join(dst, 'common_shim.rs'))
     lock = os.path.join(REPO, 'Cargo.lock')
     if cfg.get('needs_lock') and os.path.exists(lock):
         shutil.copy(lock, os.path.join(dst, 'Cargo.lock'))
@@ -472,7 +473,7 @@ def run_kani_unit(uid, cfg, tier='quick'):
                 if verdict != 'FAILED':
                     undec.append('canary harness %s was not rejected' % h['name'])
                 continue
-            if csat != ctot:
+            if csat != ctot and not fcs:
                 undec.append('%s: vacuity guard: %d of %d cover properties satisfied' % (h['name'], csat, ctot))
                 continue
             if any('unwinding assertion' in c['description'] for c in fcs):
